@@ -85,7 +85,14 @@ TMPL = {1: ([2, 1], 5), 2: ([0, 3], 5), 3: ([1, 0, 2], 8), 4: ([3, 0, 1], 7)}
 
 
 def prepare(tier):
-    return {"ex_exc": build.executor("asan", "ex_exc"), "ex_exc_plain": build.executor("plain", "ex_exc")}
+    return {"ex_exc": build.executor("asan", "ex_exc"), "ex_exc_plain": build.executor("plain", "ex_exc"),
+            "fz_exc": build.executor("fuzz", "fz_exc", extra_ldflags=["-fsanitize=fuzzer"])}
+
+
+# coverage-guided companion: byte-decoded program trees run twice by the real macros inside one catch-all block, compared
+# with a reference interpreter inside the target (harness/fz_exc.c)
+FUZZ = [{"target": "fz_exc", "runs": {"quick": 40000, "thorough": 12000000}, "max_len": 160,
+         "asan": ":malloc_context_size=2:quarantine_size_mb=16"}]
 
 
 # ---- tree helpers --------------------------------------------------------------------------
